@@ -16,8 +16,8 @@ from . import nl
 MAXRES = 6
 GRID_RES = 2         # continuous variables are judged on multiples of 1/4 (quick tier uses the coarser 1/2 subset)
 
-INT_DOMAINS = [(0, 1), (0, 1), (-3, 3), (0, 5), (2, 2), (-2, 0), (1, 4), (-1, 1), (0, 3)]
-CONT_DOMAINS = [(F(-2), F(2)), (F(0), F(4)), (F(-4), F(-1)), (F(3, 2), F(3, 2)), (F(0), F(1)), (F(-1), F(3)), (F(-3), F(0))]
+INT_DOMAINS = [(0, 1), (0, 1), (-3, 3), (0, 5), (2, 2), (-2, 0), (1, 4), (-1, 1), (0, 3), (-3, 1)]   # incl. asymmetric zero-crossing, both ways
+CONT_DOMAINS = [(F(-2), F(2)), (F(0), F(4)), (F(-4), F(-1)), (F(3, 2), F(3, 2)), (F(0), F(1)), (F(-1), F(3)), (F(-3), F(0)), (F(-3), F(1)), (F(-5, 2), F(1, 2))]
 
 CONSTS = [F(0), F(1), F(-1), F(2), F(-2), F(1, 2), F(-1, 2), F(3), F(-3), F(1, 4), F(3, 2), F(-3, 2), F(5), F(4), F(-4), F(5, 2), F(3, 4)]
 COEFS = [F(1), F(-1), F(2), F(-2), F(1, 2), F(-1, 2), F(3), F(-3), F(1, 4), F(3, 2)]
@@ -130,7 +130,7 @@ def numeric(ctx, depth, maxdeg=2, want_int=False):
     if op == "powg":
         a = numeric(ctx, depth - 1, 1)
         form = d(st.sampled_from(["cexp", "cbase", "var"]))
-        c = d(st.sampled_from([F(3), F(1, 2), F(-1), F(5, 2), F(4), F(0), F(-2)]))
+        c = d(st.sampled_from([F(3), F(1, 2), F(-1), F(5, 2), F(4), F(0), F(-2), F(4), F(6), F(2)]))    # even exponents: the zero-crossing case of the bounds
         if form == "cexp":
             t = ("powc", a.t, c)
         elif form == "cbase":
